@@ -95,11 +95,19 @@ type Specs struct {
 	Contracts map[string]*Contract
 	Fns       map[string]*SpecFn
 	Ghosts    map[string]*GhostVar
+	Frames    map[string]*FrameDef
 	Markers   []string // assume/trusted/external markers found (for evidence)
 }
 
+// FrameDef: a named list of modifies items ("frame htState(t *hashTable) = t.t[..], t.front"),
+// expanded syntactically where a modifies clause names it.
+type FrameDef struct {
+	Params []string
+	Items  []*Expr
+}
+
 func NewSpecs() *Specs {
-	return &Specs{Contracts: map[string]*Contract{}, Fns: map[string]*SpecFn{}, Ghosts: map[string]*GhostVar{}}
+	return &Specs{Contracts: map[string]*Contract{}, Fns: map[string]*SpecFn{}, Ghosts: map[string]*GhostVar{}, Frames: map[string]*FrameDef{}}
 }
 
 // LoadFile parses a contract file. defaultPkg is the import path used for
@@ -154,6 +162,27 @@ func (sp *Specs) LoadFile(path, defaultPkg string) error {
 				return fail(fmt.Errorf("duplicate spec function %s", fn.Name))
 			}
 			sp.Fns[fn.Name] = fn
+		case "frame":
+			cur = nil
+			eq := strings.Index(rest, " = ")
+			lp := strings.Index(rest, "(")
+			rp := strings.Index(rest, ")")
+			if eq < 0 || lp < 0 || rp < lp || rp > eq {
+				return fail(fmt.Errorf("frame needs name(params) = items"))
+			}
+			fd := &FrameDef{}
+			for _, prm := range strings.Split(rest[lp+1:rp], ",") {
+				n, _ := splitWord(strings.TrimSpace(prm))
+				if n != "" {
+					fd.Params = append(fd.Params, n)
+				}
+			}
+			items, err := parseExprList(rest[eq+3:])
+			if err != nil {
+				return fail(err)
+			}
+			fd.Items = items
+			sp.Frames[strings.TrimSpace(rest[:lp])] = fd
 		case "ghost":
 			cur = nil
 			n, t := splitWord(rest)
@@ -717,4 +746,24 @@ func ghostNames(e *Expr, out map[string]bool) {
 	for _, a := range e.Args {
 		ghostNames(a, out)
 	}
+}
+
+// substExpr replaces identifiers by expressions (syntactic; used to expand frame definitions).
+func substExpr(e *Expr, m map[string]*Expr) *Expr {
+	if e == nil {
+		return nil
+	}
+	if e.Kind == "ident" {
+		if r, ok := m[e.Name]; ok {
+			return r
+		}
+		return e
+	}
+	c := *e
+	c.Args = make([]*Expr, len(e.Args))
+	for i, a := range e.Args {
+		c.Args[i] = substExpr(a, m)
+	}
+	c.Src = ""
+	return &c
 }
